@@ -22,12 +22,18 @@ let common (c : case) (cout : string list) =
   let (rc, rest) = read_values "R" cout in
   (match check_roots refr rc with Some w -> raise (Fail ("roots: " ^ w)) | None -> ());
   let (probes, rest) = read_values "P" rest in
-  (sp, st, refr, probes, rest)
+  (* the verified acceptance test, evaluated once per case (coq/RootCheck.v, coq/FeasCheck.v, extracted) *)
+  let arr = Array.of_list refr in
+  let midq = List.init (max 0 (Array.length arr - 1)) (fun i -> rat_between arr.(i) arr.(i + 1)) in
+  let oracle =
+    (if verified_roots c rc = Accept && separates (List.map rn_norm rc) midq
+     then sweep_oracle check_fuel (asg_of c) c.y c.poly midq else None) in
+  (sp, st, refr, probes, rest, rc, oracle)
 
 let ranks n = List.init n (fun i -> zi i)
 
 let run_fs (c : case) (cout : string list) : string =
-  let (sp, st, refr, probes, rest) = common c cout in
+  let (sp, st, refr, probes, rest, rc, oracle) = common c cout in
   let n = List.length refr in
   let arr = Array.of_list refr in
   let mids = Array.init (max 0 (n - 1)) (fun i -> zi (sign_at_rat c st (rat_between arr.(i) arr.(i + 1)))) in
@@ -46,6 +52,11 @@ let run_fs (c : case) (cout : string list) : string =
           rest := r;
           Hashtbl.replace sets (sci, negi) ivs;
           let expected = z_constraint_feasible_set (ranks n) (nat_of_int sp.degree) (zi sp.sgn_const) (zi sp.sgn_lc) sign_mid sc neg in
+          let ver = (match oracle with Some o -> Some (feasible_matches (nat_of_int n) o sc neg ivs) | None -> None) in
+          (match ver with
+           | Some true -> incr n_verified
+           | Some false -> if expected = ivs then raise (Model_error "the verified checker rejects a feasible set the reference accepts")
+           | None -> incr n_reference_only);
           if expected <> ivs then
             raise (Fail (Printf.sprintf "%s: feasible set %s, the sweep on the exact roots and signs gives %s" what (string_of_set ivs) (string_of_set expected)));
           if not (z_set_nf ivs) then raise (Fail (what ^ ": set not in normal form " ^ string_of_set ivs));
@@ -88,10 +99,10 @@ let run_fs (c : case) (cout : string list) : string =
          if bits_of bits <> want then
            raise (Fail (Printf.sprintf "lp_polynomial_constraint_evaluate = %s, truth (sign %d) = %s" bits s (str_bits want)))) ev truth
    | _ -> raise (Fail "malformed output (E)"));
-  "CHECK ok"
+  (if oracle <> None then "CHECK ok verified" else "CHECK ok reference")
 
 let run_rc (c : case) (cout : string list) : string =
-  let (sp, st, refr, probes, rest) = common c cout in
+  let (sp, st, refr, probes, rest, rc, oracle) = common c cout in
   let n = List.length refr in
   let kmax = (match rest with "K" :: k :: _ -> int_of_string k | _ -> raise (Fail "malformed output (K)")) in
   let rest = ref (List.tl (List.tl rest)) in
@@ -108,6 +119,11 @@ let run_rc (c : case) (cout : string list) : string =
           | "C" :: bits :: r ->
             rest := r;
             let expected = z_root_constraint_feasible_set (ranks n) (nat_of_int sp.degree) (nat_of_int k) sc neg in
+            let ver = (match oracle with Some o -> Some (root_constraint_matches (nat_of_int n) o (nat_of_int k) sc neg ivs) | None -> None) in
+            (match ver with
+             | Some true -> incr n_verified
+             | Some false -> if expected = ivs then raise (Model_error "the verified checker rejects a root-constraint set the reference accepts")
+             | None -> incr n_reference_only);
             if expected <> ivs then
               raise (Fail (Printf.sprintf "%s: feasible set %s, model %s" what (string_of_set ivs) (string_of_set expected)));
             if not (z_set_nf ivs) then raise (Fail (what ^ ": set not in normal form"));
@@ -142,7 +158,7 @@ let run_rc (c : case) (cout : string list) : string =
              raise (Fail (Printf.sprintf "lp_polynomial_root_constraint_evaluate(k=%d) = %s, truth %s" k bits (str_bits want)))) ev
      | _ -> raise (Fail "malformed output (E)"))
   done;
-  "CHECK ok"
+  (if oracle <> None then "CHECK ok verified" else "CHECK ok reference")
 
 let run (toks : string list) (cout : string list) : string =
   guard (fun () ->
